@@ -1545,6 +1545,11 @@ void ares_query_complete(ares_query_t *query, ares_status_t status,
                          size_t timeouts, const ares_dns_record_t *dnsrec)
 {
   ares_detach_query(query);
+  if (query->cancelled) {
+    /* ares_cancel() is running and has taken this query */
+    status = ARES_ECANCELLED;
+    dnsrec = NULL;
+  }
   query->callback(query->arg, status, timeouts, dnsrec);
   ares_query_release(query);
 }
